@@ -56,6 +56,7 @@ def compute_domains_min_eq(domains: NDArray, parameters: NDArray) -> int:
     for i in range(len(x)):
         if x[i, MIN] <= y[MIN]:
             x[i, MIN] = y[MIN]
+        if x[i, MIN] <= y[MAX]:
             candidate_idx = i
             candidates_nb += 1
     if candidates_nb == 1:
